@@ -35,6 +35,7 @@ fn run_vm(case: &Value) -> Value {
     let n = case["n"].as_u64().unwrap_or(0) as usize;
     let sched = case["sched"].as_bool().unwrap_or(false);
     let want_state = case["state"].as_bool().unwrap_or(true);
+    let t0 = case["t0"].as_u64().unwrap_or(0); // sample index of the first dsp call (`now` starts there)
     let vm = guarded(|| VmRun::new(src, sched));
     let mut vm = match vm {
         Err(m) => return json!({"compile_panic": m}),
@@ -59,7 +60,7 @@ fn run_vm(case: &Value) -> Value {
         let input = row(case, t);
         #[cfg(mimium_verif)]
         mimium_lang::runtime::vm::verif_hooks::start();
-        let r = guarded(|| vm.step(t as u64, &input));
+        let r = guarded(|| vm.step(t0 + t as u64, &input));
         #[cfg(mimium_verif)]
         let tr = mimium_lang::runtime::vm::verif_hooks::take();
         match r {
@@ -88,6 +89,7 @@ fn run_wasm(case: &Value) -> Value {
     let n = case["n"].as_u64().unwrap_or(0) as usize;
     let sched = case["sched"].as_bool().unwrap_or(false);
     let want_state = case["state"].as_bool().unwrap_or(true);
+    let t0 = case["t0"].as_u64().unwrap_or(0);
     let w = guarded(|| WasmRun::new(src, sched));
     let mut w = match w {
         Err(m) => return json!({"compile_panic": m}),
@@ -109,7 +111,7 @@ fn run_wasm(case: &Value) -> Value {
             });
         }
         let input = row(case, t);
-        let r = guarded(|| w.step(t as u64, &input));
+        let r = guarded(|| w.step(t0 + t as u64, &input));
         match r {
             Err(m) => {
                 samples.push(json!({"panic": m}));
